@@ -13,6 +13,7 @@ CONSTANTS
     InfluxStopF = FALSE
     ReaderDone = TRUE
     AlertCloseOnErr = TRUE
+    UdfStopAborts = FALSE
     HookNeedsTmLock = TRUE
 INVARIANTS
     TypeOK
